@@ -309,6 +309,23 @@ using namespace foonathan::memory;
             u.src->check();
             if (u.src->attempts() != att0)
                 viol("C05", key("C05", "release-acquired"), "a release asked the block source for memory");
+#if FOONATHAN_MEMORY_DEBUG_FILL
+            // the freed-memory fill of this release must not reach into neighbouring live allocations (C17)
+            if (e.arr || try_)
+                for (auto& kv : u.sh.live)
+                {
+                    auto& le = kv.second;
+                    for (std::size_t i = 0; i < le.n; ++i)
+                        if ((unsigned char)kv.first[i] != shadow::pat(le.id, i))
+                        {
+                            if ((unsigned char)kv.first[i] == (unsigned char)debug_magic::freed_memory || i < sizeof(void*))
+                                viol("C17", key("C17", "release-fill-touched-neighbour"),
+                                     "releasing a %zu-byte %s wrote the freed-memory pattern or a list link into live allocation #%u (byte %zu)", e.n,
+                                     e.arr ? "array" : "node", le.id, i);
+                            break;
+                        }
+                }
+#endif
             auto gave = nodes_of(p, e.arr, e.n) * ns;
             if (p.capacity_left() != cap0 + gave)
                 viol(e.arr ? "C04" : "C18", key(e.arr ? "C04" : "C18", "release-delta"),
@@ -319,6 +336,46 @@ using namespace foonathan::memory;
             if (u.sh.live.empty())
                 at_empty(u);
             frg.check("deallocate");
+        }
+
+        // ordered list: an array that was just released can always be found again - asking for the same array must not reach the block source
+        void do_realloc_array(unit& u)
+        {
+            if (!ordered || member || u.sh.live.empty())
+                return;
+            P& p = *u.obj;
+            std::vector<char*> arrs;
+            for (auto& kv : u.sh.live)
+                if (kv.second.arr && kv.second.n > p.node_size())
+                    arrs.push_back(kv.first);
+            if (arrs.empty())
+                return;
+            auto ptr = arrs[r.below(arrs.size())];
+            auto e   = u.sh.retire(ptr);
+            op("release array #%u (%zux%zu) and allocate the same again", e.id, e.count, e.size);
+            tr::deallocate_array(p, ptr, e.count, e.size, e.align);
+            u.net -= std::ptrdiff_t(e.n);
+            u.src->check();
+            auto att0 = u.src->attempts();
+            void* q;
+            try
+            {
+                q = tr::allocate_array(p, e.count, e.size, e.align);
+            }
+            catch (std::bad_alloc&)
+            {
+                viol("C04", key("C04", "released-array-not-reusable"), "the array that was just released cannot be allocated again");
+            }
+            u.src->check();
+            if (u.src->attempts() != att0)
+                viol("C04", key("C04", "grew-with-free-array"),
+                     "allocating the %zux%zu array that was released a moment ago asked the block source for memory although the ordered free list holds it",
+                     e.count, e.size);
+            u.sh.add([&](const char* a, std::size_t n) { return u.src->owns(a, n); }, q, true, e.count, e.size, e.align);
+            u.net += std::ptrdiff_t(e.n);
+            count("array_reallocations");
+            flag("uneven-array");
+            frg.check("array reallocation");
         }
 
         // nothing live: capacity must not be lower than at the previous such point (C04)
@@ -531,6 +588,7 @@ using namespace foonathan::memory;
 
         void do_move_construct(unit& u)
         {
+            also_scope moved("C12", "C01 C05 C15"); // the C01/C05/C15 oracles continue across the move: what they find here is C12's too
             op("move-construct");
             placed<P> n;
             auto      leaks0 = hl().leaks.size();
@@ -549,10 +607,12 @@ using namespace foonathan::memory;
 
         void do_move_assign(unit& u)
         {
+            also_scope moved("C12", "C01 C05 C15"); // the C01/C05/C15 oracles continue across the move: what they find here is C12's too
             bool used = r.chance(60);
             op("move-assign onto %s target", used ? "used" : "fresh");
             // (another block size than the assigned-from pool: the block source's parameters must move along)
             auto t = fresh(ns0, r.chance(50) ? bs0 : P::min_block_size(ns0, r.range(1, 120)), placement::heap);
+            bool target_unbalanced = false;
             if (used)
             {
                 // target has handed out and taken back memory, possibly grown
@@ -575,20 +635,29 @@ using namespace foonathan::memory;
                     }
                     got.push_back({m, q});
                 }
+                // sometimes the target keeps a few nodes (its net count is not zero when it is assigned to): what happens to that count
+                // is not stated by the property and is not judged, but the count of the source must arrive and the source report nothing
+                bool keep_some = r.chance(30);
                 for (std::size_t i = got.size(); i > 0; --i)
                 {
                     std::swap(got[i - 1], got[r.below(i)]);
+                    if (keep_some && i % 3 == 0)
+                        continue;
                     if (member)
                         tp.deallocate_node(got[i - 1].first);
                     else
                         tr::deallocate_node(tp, got[i - 1].first, got[i - 1].second.size, got[i - 1].second.align);
                 }
                 t->src->check();
+                if (keep_some)
+                    target_unbalanced = true;
             }
             auto leaks0 = hl().leaks.size();
             *t->obj     = std::move(*u.obj);
             t->src->check();
             u.src->check();
+            if (target_unbalanced)
+                leaks0 = hl().leaks.size(); // a report for the target's own outstanding memory at this point is not judged
             if (hl().leaks.size() != leaks0)
                 viol("C15", key("C15", "move-assign-reported"), "move assignment onto a balanced pool called the leak handler");
             if (!t->src->balanced())
@@ -607,6 +676,7 @@ using namespace foonathan::memory;
 
         void do_swap(unit& a, unit& b)
         {
+            also_scope moved("C12", "C01 C05 C15"); // the C01/C05/C15 oracles continue across the move: what they find here is C12's too
             op("swap");
             using std::swap;
             swap(*a.obj, *b.obj);
@@ -683,8 +753,10 @@ using namespace foonathan::memory;
                 do_alloc(u, true);
             else if (x < 900)
                 do_release(u, false);
-            else if (x < 930)
+            else if (x < 922)
                 do_release(u, true);
+            else if (x < 930)
+                do_realloc_array(u);
             else if (x < 945)
                 do_move_construct(u);
             else if (x < 958)
@@ -730,8 +802,10 @@ using namespace foonathan::memory;
                 int churn = int(r.range(10, 100));
                 for (int i = 0; i < churn && done < ops; ++i, ++done)
                 {
-                    if (r.chance(50))
+                    if (r.chance(45))
                         do_release(*units[0], r.chance(10));
+                    else if (r.chance(10))
+                        do_realloc_array(*units[0]);
                     else
                         do_alloc(*units[0], r.chance(15));
                 }
